@@ -61,9 +61,10 @@ chk("C13",
 
 chk("C14",
     "Bounded symbolic execution of the text encodings of HostPort (round trip), netutil.Prefix (differential vs netip.ParsePrefix/ParseAddr) and urlutil.URL "
-    "(MarshalText is String(), UnmarshalText is url.Parse, round trip of String()) on symbolic texts.",
+    "(MarshalText is String(), UnmarshalText is url.Parse, round trip of String(), JSON round trip through the real encoding/json string escaping) and "
+    "timeutil.Duration (text and JSON round trip on a one-byte-symbolic family of durations plus edge values) on symbolic texts.",
     SMT + "; round trips and differential comparison with the real std parsers",
-    "Sub-claims not covered: timeutil.Duration and the JSON encoding of URL (see outside_bound in the evidence); one known finding (URLs with empty text form).")
+    "Durations with more than one symbolic byte are outside the bound (64-bit division by 10^9 is out of the solvers' reach); one known finding (URLs with empty text form).")
 
 chk("C16",
     "Two-run bounded symbolic execution of RedactUserinfo: two URLs sharing every component and differing only in symbolic credentials must redact to field-wise equal URLs "
